@@ -276,6 +276,53 @@ def history_check(case):
     return Res(list(seen.items()), o="h", tr=ntr)
 
 
+# ------------------------------------------------------------------ lengths beyond every internal size threshold
+def long_cases(tier, seed):
+    from mc import thresholds
+    mined = thresholds.beyond(thresholds.mine([fourier], 256, 40000))
+    primes = [1031, 2053, 4099, 8209, 16411, 32771, 65537, 90001]          # just above powers of two, not 5-smooth
+    return [(n,) for n in sorted(set(mined + primes))]
+
+
+def long_check(case):
+    """circular roll, composition and the analytic delay on long signals (a few impulses and sinusoids instead of the whole basis)"""
+    n = case[0]
+    v = []
+    t = np.arange(n)
+    pos = [0, 1, n // 3, n - 1]
+    X = np.zeros((len(pos) + 2, n))
+    for i, p_ in enumerate(pos):
+        X[i, p_] = 1.0
+    ks = (3, n // 5)
+    X[len(pos)] = np.cos(2 * np.pi * ks[0] * t / n)
+    X[len(pos) + 1] = np.sin(2 * np.pi * ks[1] * t / n)
+    ntr = 0
+    for dt, tol in ((np.float64, 1e-9), (np.float32, 5e-5)):
+        Xd = X.astype(dt)
+        for sh in (1, -1, 17, n // 2, -(n - 3)):
+            for axis, A in ((1, Xd), (0, np.ascontiguousarray(Xd.T))):
+                out = fourier.fshift(A, sh, axis=axis)
+                ntr += 1
+                ref = np.roll(A, sh, axis=axis)
+                if out.shape != A.shape or out.dtype != A.dtype or _maxerr(out, ref) > tol * 10:
+                    v.append(("long:integer-shift", "n=%d %s axis=%d: shifting by %d samples differs from the circular roll by %.3g" % (n, np.dtype(dt).name, axis, sh, _maxerr(out, ref))))
+                    return Res(v, o=n, tr=ntr)
+        a, b = 0.25, 1.5
+        lhs = fourier.fshift(fourier.fshift(Xd[len(pos):], a, axis=1), b, axis=1)
+        rhs = fourier.fshift(Xd[len(pos):], a + b, axis=1)
+        ref = np.stack([np.cos(2 * np.pi * ks[0] * (t - a - b) / n), np.sin(2 * np.pi * ks[1] * (t - a - b) / n)])
+        ntr += 3
+        if _maxerr(lhs, rhs) > tol * 100 or _maxerr(rhs, ref) > tol * 100 * (1 + n / 1000.0):
+            v.append(("long:fractional", "n=%d %s: fractional shifts do not add up / differ from the analytic delay (%.3g, %.3g)" % (n, np.dtype(dt).name, _maxerr(lhs, rhs), _maxerr(rhs, ref))))
+        pt = np.array([0.5, -2.0, 3.0, 0.0, n // 2 + 0.0, -1.0])[:, None]
+        out = fourier.fshift(Xd, pt, axis=1)
+        ref = np.stack([fourier.fshift(Xd[i], float(pt[i, 0])) for i in range(Xd.shape[0])])
+        ntr += 1 + Xd.shape[0]
+        if _maxerr(out, ref) > tol * 10:
+            v.append(("long:per-trace", "n=%d %s: per-trace shifts differ from single-trace calls by %.3g" % (n, np.dtype(dt).name, _maxerr(out, ref))))
+    return Res(v, o=n, tr=ntr)
+
+
 # ------------------------------------------------------------------ parabolic maximum
 def para_cases(tier, seed):
     return [(n,) for n in range(3, 12)] + [(40,)]
@@ -333,6 +380,7 @@ CHECK = {
     "clauses": [
         Clause("basis", "impulse / sinusoid basis laws for every length and dtype", cases=basis_cases, check=basis_check),
         Clause("history", "call sequences over neighbouring lengths in one process (no hidden state)", cases=history_cases, check=history_check),
+        Clause("long-lengths", "lengths just beyond every size constant mined from ibldsp.fourier, and primes up to 90001", cases=long_cases, check=long_check),
         Clause("delay", "wave_shift_corrmax recovers the applied shift and re-aligns", cases=delay_cases, check=delay_check),
         Clause("stack", "shift_waveform re-aligns a cluster of shifted copies", cases=stack_cases, check=stack_check),
         Clause("parabolic", "parabolic_max on every 3-point pattern position incl. edges, 1-D and 2-D", cases=para_cases, check=para_check),
